@@ -158,8 +158,8 @@ fn main() {
             // gv hist <histories.json> --out DIR --shards K [--extend]
             let doc: serde_json::Value = serde_json::from_str(&std::fs::read_to_string(&args[2]).unwrap()).unwrap();
             let corner = doc["corner"].as_u64().unwrap() as usize;
-            let hists: Vec<Vec<(String, usize, i64)>> = doc["hists"].as_array().unwrap().iter().map(|h| {
-                h.as_array().unwrap().iter().map(|s| (s[0].as_str().unwrap().to_string(), s[1].as_u64().unwrap() as usize, s[2].as_i64().unwrap())).collect()
+            let hists: Vec<Vec<(String, usize, i64, u64)>> = doc["hists"].as_array().unwrap().iter().map(|h| {
+                h.as_array().unwrap().iter().map(|s| (s[0].as_str().unwrap().to_string(), s[1].as_u64().unwrap() as usize, s[2].as_i64().unwrap(), s[3].as_u64().unwrap_or(0))).collect()
             }).collect();
             let shards: usize = arg(&args, "--shards", 1);
             let dir: PathBuf = PathBuf::from(arg(&args, "--out", "out/traces".to_string()));
